@@ -101,7 +101,7 @@ class World:
             elif t == "h":
                 os.link(os.path.join(rootb, s2b(e["to"])), p)
             elif t == "l":
-                os.symlink(s2b(e["to"]), p)
+                os.symlink(s2b(e["to"]).replace(b"@ROOT@", rootb), p)
                 mt = e.get("mt", T0_NS - 3600 * 10**9)
                 os.utime(p, ns=(mt, mt), follow_symlinks=False)
         # directory mtimes: all in the simulated past
